@@ -52,6 +52,7 @@ MANIFEST = {
             'it is not certain), dtmc/refsem.py and the printers of '
             'dtmc/ast.py.',
 }
+DYNAMIC = True        # few heavy cases: dynamic load balancing
 RULE = ('families free / tagged / split as in the module docstring.  A '
         'free string is non-trivial when it contains a near-tag character '
         '(< & % ; > ") ; a tagged template when at least one slot holds a '
